@@ -198,17 +198,16 @@ Proof.
       * intros r0 Hi. destruct (Hpre1 r0 Hi) as [X1 [X2 [l0 [X3 [X4 X5]]]]]. rewrite Hhmo. repeat split; auto.
         destruct Hi as [<-|[]]. exists l1. repeat split; try exact P6; congruence.
       * intros c0 Hc0. assert (Hc1 : c0 = c) by (destruct m; cbn in *; congruence). subst c0.
+        assert (Hcr : c <> r).
+        { intros ->. apply occ_notin in Hh. apply Hh. unfold holders, cur_list. rewrite Ec. simpl. auto. }
         assert (Hst : aget (store s') c <> None).
         { apply (mo_refs _ _ _ _ (gi_mgr _ _ P1 k mo Hm')). unfold phk. gs. rewrite <- Hk, N.eqb_refl. rewrite Hhmo, occ_app.
-          assert (Hc2 : occ c (holders m) = 1%nat).
-          { unfold holders, cur_list. rewrite Ec. simpl. rewrite N.eqb_refl. pose proof (proj1 (occ_nodup _) B4 c) as N0.
-            unfold holders, cur_list in N0. rewrite Ec in N0. simpl in N0. rewrite N.eqb_refl in N0. lia. }
-          pose proof (gi_phle _ _ P1 c) as PL. unfold phl in PL. gs. rewrite Hpw, Hk, (getm_some _ _ _ Hm'), Hhmo in PL.
-          specialize (P3 c). rewrite Hhol, occ_app in Hc2.
-          assert (c <> r). { intros ->. apply occ_notin in Hh. apply Hh. unfold holders, cur_list. rewrite Ec. simpl. auto. }
-          simpl in P3. destruct (r =? c) eqn:E; [apply N.eqb_eq in E; congruence|].
-          unfold cur_list in Hc2. rewrite Ec in Hc2. simpl in Hc2. rewrite N.eqb_refl in Hc2.
-          (* c is the current lock: not in the queue, hence not a phantom *) lia. }
+          pose proof (proj1 (occ_nodup _) B4 c) as N0. rewrite Hhol, occ_app in N0.
+          assert (Hc1 : occ c (cur_list m) = 1%nat) by (unfold cur_list; rewrite Ec; simpl; rewrite N.eqb_refl; reflexivity).
+          specialize (P3 c). rewrite occ_single in P3. destruct (r =? c) eqn:E; [apply N.eqb_eq in E; congruence|].
+          rewrite Hhol, occ_app, Hc1.
+          assert (occ c ph' = O) by (rewrite Hc1 in N0; destruct (occ c (hq_items q)); [destruct (occ c ph'); [reflexivity|rewrite Nat.add_0_r in P3; rewrite <- plus_n_Sm in P3; discriminate]|exfalso; clear - N0; inversion N0 as [|? N1]; inversion N1]).
+          rewrite H. apply Nat.lt_lt_add_r. apply Nat.lt_lt_add_r. apply Nat.lt_0_succ. }
         rewrite (qframe_locked s1 s' c P2 Hst). unfold s1. rewrite getl_setl.
         destruct (r =? c) eqn:E; [apply N.eqb_eq in E; subst; exfalso; apply occ_notin in Hh; apply Hh; unfold holders, cur_list; rewrite Ec; simpl; auto|].
         apply B7; auto.
@@ -233,7 +232,7 @@ Proof.
       * intros r0. rewrite Hhm', Hhm, Hp. simpl. lia.
       * intros c0 Hc0. assert (c0 = r) by (destruct m; cbn in *; congruence). subst c0.
         rewrite (getl_some _ _ _ Hr1), F3. lia.
-      * intros Hc0. destruct m; cbn in *; discriminate.
+      * intros Hc0. unfold m' in Hc0. destruct m; discriminate.
       * intros q0 Hq0. assert (Hq1 : m_locks m = Some q0) by (destruct m; exact Hq0).
         unfold s1. apply map_ok_setl; [apply B10; auto|]. intros items mp Hs id E.
         destruct (B10 q0 Hq1 items mp Hs id r E) as [_ [Cl _]]. rewrite (getl_some _ _ _ Hr) in Cl. lia.
